@@ -45,7 +45,9 @@ def cf_bits(cfs):
     return out
 
 
-def make_cats(ctx, rng, npatch, with_z_unk=False):
+def make_cats(ctx, seed, npatch, with_z_unk=False, suffix=""):
+    import random
+    rng = random.Random(seed)     # the same seed gives the same data (in other cache directories with a suffix)
     cents = [offset(80.0, 15.0, k * 1.0, (k % 2) * 0.4) for k in range(npatch)]
     centers = impl.AngularCoordinates(np.deg2rad(np.asarray(cents)))
 
@@ -56,7 +58,7 @@ def make_cats(ctx, rng, npatch, with_z_unk=False):
         if with_z:
             cols["z"] = [rng.choice([0.15, 0.25, 0.3, 0.45, 0.6]) for _ in pts]
             kw["redshift_name"] = "z"
-        return impl.Catalog.from_dataframe(impl.fresh_dir(ctx, name), impl.make_df(cols), **kw)
+        return impl.Catalog.from_dataframe(impl.fresh_dir(ctx, name + suffix), impl.make_df(cols), **kw)
     return mk("ref", 30, True), mk("unk", 24, with_z_unk), mk("rand", 30, True)
 
 
@@ -112,7 +114,8 @@ def run(ctx):
     terms, metas = [], []
     for rep in range(ctx.n(2, 8)):
         npatch = rng.choice([2, 3, 4]) if rep else 3
-        ref, unk, rand = make_cats(ctx, rng, npatch)
+        dseed = rng.randrange(10 ** 6)
+        ref, unk, rand = make_cats(ctx, dseed, npatch)
         edges = [0.1, 0.3, 0.5, 0.7]
         cfg = yaw.Configuration.create(rmin=[1.0, 5.0], rmax=[20.0, 60.0], unit="arcmin", edges=edges, max_workers=1)
         # ---- sequential baselines
@@ -202,6 +205,23 @@ def run(ctx):
             if (bits(h.data), bits(h.samples)) != base_hist:
                 ctx.fail("c05-hist-depends-on-completion-order", "HistData.from_catalog on the real pool with %d workers differs" % w,
                          dict(workers=w), case=(rep, "real-hist", w))
+        # ---- real multiprocessing after an earlier sequential measurement with OTHER edges of the same
+        #      bin count in this process: worker processes must not see anything stale from the parent
+        edges_b = [0.1, 0.275, 0.475, 0.7]
+        cfg_b = yaw.Configuration.create(rmin=[1.0, 5.0], rmax=[20.0, 60.0], unit="arcmin", edges=edges_b, max_workers=1)
+        fresh = make_cats(ctx, dseed, npatch, suffix="_fresh")                                      # same data, other directories
+        want_b = cf_bits(yaw.crosscorrelate(cfg_b, fresh[0], fresh[1], ref_rand=fresh[2], max_workers=1))
+        for c in fresh:
+            shutil.rmtree(str(c.cache_directory), ignore_errors=True)
+        for w in (2, 4):
+            yaw.crosscorrelate(cfg, ref, unk, ref_rand=rand, max_workers=1)                          # first binning, sequential, in this process
+            got_b = cf_bits(yaw.crosscorrelate(cfg_b, ref, unk, ref_rand=rand, max_workers=w))       # other edges, worker processes
+            ctx.count(key=(rep, "real-history", w), nontrivial=True, kind="real-pool-history/w%d" % w)
+            if got_b != want_b:
+                ctx.fail("c05-cross-depends-on-worker-count-after-history",
+                         "crosscorrelate with %d worker processes after an earlier sequential measurement with other edges (same bin count) "
+                         "differs from the sequential result on fresh caches" % w,
+                         dict(workers=w, edges_first=edges, edges_second=edges_b), case=(rep, "real-history", w))
         for c in (ref, unk, rand):
             shutil.rmtree(str(c.cache_directory), ignore_errors=True)
     impl.set_threads(1)
